@@ -1,12 +1,13 @@
 """C10 — chain: concatenation in order with strictly sequential evaluation."""
+from ..facts import base
 from .. import families, scan
 from ..families import short, ctor_fields
 from . import flow, common, joinlike, c01
 
 PROPERTY = "C10"
 LEVEL = "other"
-CONFIGS_QUICK = ["std"]
-CONFIGS_THOROUGH = ["std", "alloc", "core"]
+CONFIGS_QUICK = ["std", "std-rel"]
+CONFIGS_THOROUGH = ["std", "alloc", "core", "std-rel", "alloc-rel", "core-rel"]
 EXPLANATION = (
     "Typestate rules over the `index` field on the MIR of every chain poll_next body (tuple arities 1-12, array, Vec): (SEL) the "
     "polled input is selected by `index` and nothing else - array/Vec poll `iter_pin_mut(self.streams).nth(self.index)`, tuples "
@@ -52,7 +53,7 @@ def run(ctx):
                 joinlike.rule_zero(ctx, M, u, "C10.ZERO", ("Ready(None)",))
         n = joinlike.rule_ext(ctx, M, "stream::stream_ext::StreamExt", "chain", "chain", "C10.EXT")
         ctx.require(n >= 1, "StreamExt::chain")
-        na = 1 if cfg == "core" else 2
+        na = 1 if base(cfg) == "core" else 2
         ctx.floor("C10.SEL", cfg, 12 + na)
         ctx.floor("C10.MONO", cfg, 78 + na + 2 * (12 + na))
         ctx.floor("C10.END", cfg, 78 + na + 12 + na)
